@@ -46,10 +46,10 @@ def apply (v : View) (e : Env) : Act → Option (View × Env)
     | some book =>
       let ts := v.pool.take k
       if ts.isEmpty then none
-      else if (e.flags.get n).broken then none
       else if guarded && e.flags.shuttingDown n then none
       else some ({ v with pool := v.pool.drop k, books := AList.set v.books n (book ++ ts) },
-                 e.emit (.run n ts))
+                 -- a peer that is gone: the command does not reach the wire (`sendcommand` swallows the `OSError`)
+                 if (e.flags.get n).broken then e else e.emit (.run n ts))
   | .shut n => some (v, e.shutdown n)
   | .steal n k =>
     match AList.lookup v.books n with
@@ -57,8 +57,9 @@ def apply (v : View) (e : Env) : Act → Option (View × Env)
     | some book =>
       if k = 0 ∨ book.length < k + 2 then none
       else if v.req.isSome then none
-      else if (e.flags.get n).broken ∨ e.flags.shuttingDown n then none
-      else some ({ v with req := some n }, e.emit (.steal n (book.drop (book.length - k))))
+      else if e.flags.shuttingDown n then none
+      else some ({ v with req := some n },
+                 if (e.flags.get n).broken then e else e.emit (.steal n (book.drop (book.length - k))))
   | .report n f => some (v, e.emit (.collectReport n f))
   | .complete n i =>
     match AList.lookup v.books n with
